@@ -12,6 +12,11 @@ open Complex
 noncomputable instance instFftLikeReal : FftLike ℝ :=
   ⟨fun x => if x - ⌊x⌋ < 1 / 2 then ⌊x⌋ else if 1 / 2 < x - ⌊x⌋ then ⌊x⌋ + 1 else if ⌊x⌋ % 2 = 0 then ⌊x⌋ else ⌊x⌋ + 1, min⟩
 
+/-- `t ↦ exp(i t)` is additive -/
+theorem expI_add_complex (a b : ℝ) : (CxLike.expI (a + b) : ℂ) = CxLike.expI a * CxLike.expI b := by
+  show Complex.exp (((a + b : ℝ) : ℂ) * Complex.I) = Complex.exp ((a : ℂ) * Complex.I) * Complex.exp ((b : ℂ) * Complex.I)
+  rw [← Complex.exp_add]; congr 1; push_cast; ring
+
 theorem rootPeriodic_complex : RootPeriodic ℂ ℝ := by
   intro n a b h
   show Complex.exp (((-(2 * Real.pi * ((a : ℤ) : ℝ) / ((n : ℤ) : ℝ)) : ℝ) : ℂ) * I) =
